@@ -228,6 +228,37 @@ def FindSkel.run (s : FindSkel) (tests : List Bool) : Option (Option Nat) :=
       s.adaptors = [.iter, .position, .index])
   then some (tests.findIdx? id) else none
 
+/-! ## `SharedState::find_ordered_expected_call_pattern_debug` (`src/state.rs`): which pattern an out-of-order call was expected to hit -/
+
+inductive ExpShape | findMap | forLoop | filterFindMap | other
+  deriving DecidableEq, Repr
+
+structure ExpSkel where
+  /-- iterates `self.fn_mockers.values()` -/
+  overMockers : Bool
+  shape : ExpShape
+  /-- a mocker whose `pattern_match_mode` is not `InOrder` contributes nothing (`return None` / `continue`) -/
+  skipsUnordered : Bool
+  /-- the pattern is looked up with `find_call_pattern_for_call_order(ordered_call_index)` -/
+  usesFind : Bool
+  /-- what is yielded is `fn_mocker.debug_pattern(pat_index)` of that same mocker and index -/
+  yieldsFound : Bool
+  deriving DecidableEq, Repr
+
+/-- meaning over the per-mocker facts (is it ordered?, what `find_call_pattern_for_call_order` says): the first ordered
+    mocker owning the slot, with the index found there; `none` = a shape the interpreter does not know -/
+def ExpSkel.run (s : ExpSkel) (ms : List (Bool × Option Nat)) : Option (Option (Nat × Nat)) :=
+  if s.overMockers ∧ s.skipsUnordered ∧ s.usesFind ∧ s.yieldsFound ∧ (s.shape = .findMap ∨ s.shape = .forLoop ∨ s.shape = .filterFindMap)
+  then some (go ms 0) else none
+where go : List (Bool × Option Nat) → Nat → Option (Nat × Nat)
+  | [], _ => none
+  | (ordered, found) :: rest, k =>
+    if ordered then
+      match found with
+      | some i => some (k, i)
+      | none => go rest (k + 1)
+    else go rest (k + 1)
+
 /-- classify a pattern's try result the way the closure sees it -/
 def ofTry : Option Try → R
   | none => .f
